@@ -635,6 +635,7 @@ def run_real(spec: dict, k: int | None) -> dict:
             "heap=" + after["heap"],
             "fs=" + fs_str,
             "load=" + load_str,
+            "tn=" + ",".join(str(t.name) for t in w.objs if t is not None),
         ])
         return {
             "line": line,
@@ -670,12 +671,15 @@ def model_line(spec: dict, k: int | None, deep: int) -> str:
             j = [x["name"] for x in spec["inits"]].index(it["of"])
             parts.append(head + f":A:{j}")
         elif it["kind"] == "M":
-            parts.append(head + f":M:{it['seed']}:{it['len']}:{int(it['np'])}")
+            parts.append(head + f":M:{it['seed']}:{it['len']}:{int(it['np'])}"
+                         + (f":tn_{it['name']}" if it.get("tname_differs") and it["np"] and not it.get("lazy") else ""))
         else:
             parts.append(head + f":E:{it['file']}:{it['off']}:{it['len']}:{int(it.get('valid', 1))}")
-    verbose = 1 if int(spec.get("verbose", 0)) == 1 else 0
+    mode = int(spec.get("verbose", 0))  # 0 quiet, 1 verbose with tqdm, 2 verbose without tqdm
+    verbose = 1 if mode else 0
+    tqdm = 0 if mode == 2 else 1
     return " ".join([
-        "save", str(deep), str(verbose), "-" if k is None else str(k), spec.get("dir") or "-", spec["name"], files,
+        "save", f"{deep}{tqdm}", str(verbose), "-" if k is None else str(k), spec.get("dir") or "-", spec["name"], files,
         ";".join(parts) or "-",
     ])
 
